@@ -119,12 +119,14 @@ theorem okAnd_spec {x : Except Err AsmResult} {f : AsmResult → Prop} [Decidabl
   | error e => cases h
   | ok r => exact ⟨r, rfl, of_decide_eq_true h⟩
 
+/-- the closed evaluation of the plain run (its own declaration: the kernel run uses the whole budget) -/
+theorem progFar_plain_check : okAnd (assembleItems Hf false progFar [] []) (fun r => r.labels = [("F", 1048580)] ∧
+    r.bytes.take 8 = [151, 0, 16, 0, 231, 128, 64, 0] ∧ r.bytes.length = 1048584) = true := by decide +kernel
+
 /-- the plain run, evaluated: `auipc ra, 0x100 ; jalr ra, 4(ra)`, `F` at 1048580, 1048584 bytes -/
 theorem progFar_plain : ∃ r₀, assembleItems Hf false progFar [] [] = .ok r₀ ∧ r₀.labels = [("F", 1048580)] ∧
-    r₀.bytes.take 8 = [151, 0, 16, 0, 231, 128, 64, 0] ∧ r₀.bytes.length = 1048584 := by
-  have h : okAnd (assembleItems Hf false progFar [] []) (fun r => r.labels = [("F", 1048580)] ∧
-      r.bytes.take 8 = [151, 0, 16, 0, 231, 128, 64, 0] ∧ r.bytes.length = 1048584) = true := by decide +kernel
-  exact okAnd_spec h
+    r₀.bytes.take 8 = [151, 0, 16, 0, 231, 128, 64, 0] ∧ r₀.bytes.length = 1048584 :=
+  okAnd_spec progFar_plain_check
 
 /-- **the theorem applies where the span hypothesis fails**: the `-c` run of `progFar` succeeds because the
     plain one does -/
@@ -132,13 +134,13 @@ theorem progFar_compressed_ok : ∃ r₁, assembleItems Hf true progFar [] [] = 
   obtain ⟨r₀, h0, _⟩ := progFar_plain
   exact compress_preserves_success_program2 Hf progFar r₀ progFar_hyps progFar_alignFree h0
 
+theorem progFar_compressed_check : okAnd (assembleItems Hf true progFar [] []) (fun r => r.labels = [("F", 1048570)] ∧
+    r.bytes.take 10 = [239, 240, 191, 127, 1, 21, 1, 21, 1, 21] ∧ r.bytes.length = 1048572) = true := by decide +kernel
+
 /-- … and what it is: the call is ONE `jal ra` (offset 1048570), then three `c.addi`; `F` at 1048570,
     1048572 bytes -/
 theorem progFar_compressed : ∃ r₁, assembleItems Hf true progFar [] [] = .ok r₁ ∧ r₁.labels = [("F", 1048570)] ∧
-    r₁.bytes.take 10 = [239, 240, 191, 127, 1, 21, 1, 21, 1, 21] ∧ r₁.bytes.length = 1048572 := by
-  have h : okAnd (assembleItems Hf true progFar [] []) (fun r => r.labels = [("F", 1048570)] ∧
-      r.bytes.take 10 = [239, 240, 191, 127, 1, 21, 1, 21, 1, 21] ∧ r.bytes.length = 1048572) = true := by
-    decide +kernel
-  exact okAnd_spec h
+    r₁.bytes.take 10 = [239, 240, 191, 127, 1, 21, 1, 21, 1, 21] ∧ r₁.bytes.length = 1048572 :=
+  okAnd_spec progFar_compressed_check
 
 end BB.Props.C12
